@@ -43,7 +43,7 @@ theorem C11_mro_strings : mro .SolverStrings =
 
 /-- The full statement (refinement `answers ⊑ Spec`) for the three classes of the property: over every environment
 satisfying the named hypotheses (`SolverHyps`: `Reg`, `OracleExact`, `SimpOn`, `SimpVars`, `CheapSound`, `PickOk`, `ExpReg`,
-`EvalComplete`, `TrivOk`, `BuildOn` — all relative to the registries `R` / `RE` of the constraints and expressions of the run;
+`EvalComplete`, `TrivOk`, `BuildOn`, `ZidFaithful` — all relative to the registries `R` / `RE` of the constraints and expressions of the run;
 the absolute forms `BuildExact`, `SimplifyEquiv`, `NoGiveUp` of Basic.lean are inconsistent with `OracleExact` and `PickValid`
 is unsatisfiable by itself, which would make the statement vacuous), for EVERY configuration (`track`, `reuse_z3_solver`) and
 every history of calls in scope on a tree of branched solvers, each outcome is one the stateless reference `Judge` allows for
@@ -54,18 +54,18 @@ def C11_full : Prop :=
   ∀ (track reuse : Bool) (hist : List (Nat × Op)), HistOkS R RE 1 hist →
     ∀ x ∈ runHist E cls (World.init track reuse) [[]] hist, JudgeOrGiveUp E x.1 x.2.1 x.2.2
 
-/-- what is proved of `C11_full`: the caching class `Solver`, untracked, `reuse_z3_solver` off, every history in scope
-(`C11_solver_refines_or_gives_up`).  MISSING: `track = true` and `reuse = true` (the invariant `CoreInv` of `_get_solver` is
-stated for untracked frontends that own or share-after-finalize their Z3 object); for SolverCacheless and SolverStrings the
-calls `batch_eval` and pickle round trips inside a history (`C11_cacheless_refines`, `C11_strings_refines` cover the other
-calls); `unsat_core` is outside `Judge`. -/
-theorem C11_full_partial {E : Env} {R : Con → Prop} {RE : Exp → Prop} (H : SolverHyps R RE E) (hist : List (Nat × Op))
-    (hok : HistOkS R RE 1 hist) :
-    ∀ x ∈ runHist E .Solver (World.init false false) [[]] hist, JudgeOrGiveUp E x.1 x.2.1 x.2.2 :=
-  sol_hist_giveup H hist _ _ (tinvS_init R RE E) hok
+/-- what is proved of `C11_full`: the caching class `Solver`, tracked or not, `reuse_z3_solver` off, every history in scope
+(`C11_solver_refines_or_gives_up`).  MISSING: `reuse = true` (one Z3 object shared by all frontends and reset at every query:
+the invariant "the object referred to asserts the constraints" does not hold between calls); for SolverCacheless and
+SolverStrings tracking and the calls `batch_eval` / pickle round trips inside a history (`C11_cacheless_refines`,
+`C11_strings_refines` cover the other calls, untracked); `unsat_core` is outside `Judge`. -/
+theorem C11_full_partial {E : Env} {R : Con → Prop} {RE : Exp → Prop} (H : SolverHyps R RE E) (track : Bool)
+    (hist : List (Nat × Op)) (hok : HistOkS R RE 1 hist) :
+    ∀ x ∈ runHist E .Solver (World.init track false) [[]] hist, JudgeOrGiveUp E x.1 x.2.1 x.2.2 :=
+  sol_hist_giveup H hist _ _ (tinvS_init R RE E track) hok
 
-example : ∀ x ∈ runHist cEnv .Solver (World.init false false) [[]] cHist, JudgeOrGiveUp cEnv x.1 x.2.1 x.2.2 :=
-  C11_full_partial cHyps cHist cHist_ok
+example : ∀ x ∈ runHist cEnv .Solver (World.init true false) [[]] cHist, JudgeOrGiveUp cEnv x.1 x.2.1 x.2.2 :=
+  C11_full_partial cHyps true cHist cHist_ok
 
 /-- `_satisfiable` over an exact oracle is exact and leaves the solver object's frames alone -/
 theorem C11_satisfiable_exact {E : Env} (hE : OracleExact E) {hook : PModel → M Unit} {A : List ZCon}
@@ -267,7 +267,7 @@ theorem C11_cache_solution_fast {RE : Exp → Prop} {E : Env} {U : List Con} {se
 
 /-! ### the caching class `Solver`, whole histories over trees of branched solvers -/
 
-/-- **Solver refines the specification.** Start from a fresh `Solver()` (no tracking, Z3 solver not reused) and make ANY
+/-- **Solver refines the specification.** Start from a fresh `Solver(track=…)` (tracked or not; Z3 solver not reused) and make ANY
 sequence of add / satisfiable / eval / batch_eval / min / max / solution / is_true / is_false / simplify / downsize / branch /
 pickle-round-trip calls on any of the solvers alive (`HistOkS`: the solver called exists; added constraints from the registry
 `R`, queried symbolic expressions from the registry `RE`).  Under the hypotheses `SolverHyps` (those of the cacheless theorem, plus: `EvalComplete` — the models of
@@ -275,16 +275,16 @@ pickle-round-trip calls on any of the solvers alive (`HistOkS`: the solver calle
 the complete mixin stack composed from the generated MRO, model cache, satisfiability cache and constraint expansion
 included, the solvers of the tree sharing Z3 objects as `_copy` makes them and inheriting each other's caches — other than the
 give-up error is one the property statement allows for the constraints added so far to the solver that was asked. -/
-theorem C11_solver_refines {E : Env} {R : Con → Prop} {RE : Exp → Prop} (H : SolverHyps R RE E) (hist : List (Nat × Op))
-    (hok : HistOkS R RE 1 hist) :
-    ∀ x ∈ runHist E .Solver (World.init false false) [[]] hist, x.2.2 ≠ .err .giveUp → Judge x.1 x.2.1 x.2.2 :=
-  sol_hist H hist _ _ (tinvS_init R RE E) hok
+theorem C11_solver_refines {E : Env} {R : Con → Prop} {RE : Exp → Prop} (H : SolverHyps R RE E) (track : Bool)
+    (hist : List (Nat × Op)) (hok : HistOkS R RE 1 hist) :
+    ∀ x ∈ runHist E .Solver (World.init track false) [[]] hist, x.2.2 ≠ .err .giveUp → Judge x.1 x.2.1 x.2.2 :=
+  sol_hist H hist _ _ (tinvS_init R RE E track) hok
 
 /-- the same with the give-up case spelled out -/
 theorem C11_solver_refines_or_gives_up {E : Env} {R : Con → Prop} {RE : Exp → Prop} (H : SolverHyps R RE E)
-    (hist : List (Nat × Op)) (hok : HistOkS R RE 1 hist) :
-    ∀ x ∈ runHist E .Solver (World.init false false) [[]] hist, JudgeOrGiveUp E x.1 x.2.1 x.2.2 :=
-  sol_hist_giveup H hist _ _ (tinvS_init R RE E) hok
+    (track : Bool) (hist : List (Nat × Op)) (hok : HistOkS R RE 1 hist) :
+    ∀ x ∈ runHist E .Solver (World.init track false) [[]] hist, JudgeOrGiveUp E x.1 x.2.1 x.2.2 :=
+  sol_hist_giveup H hist _ _ (tinvS_init R RE E track) hok
 
 /-- one call on solver `i` of a tree of caching solvers: answers as allowed for that solver's constraints (or gives up
 honestly) and keeps the invariant of the whole world (`TInvS`: every frontend satisfies `SI = BInv ∧ MCInv ∧ SCInv` for its
@@ -303,23 +303,23 @@ theorem C11_solver_hypotheses_consistent :
 
 /-- non-vacuity: the theorem applies to that environment and history -/
 example : ∀ x ∈ runHist cEnv .Solver (World.init false false) [[]] cHist, JudgeOrGiveUp cEnv x.1 x.2.1 x.2.2 :=
-  C11_solver_refines_or_gives_up cHyps cHist cHist_ok
+  C11_solver_refines_or_gives_up cHyps false cHist cHist_ok
 
 /-! ### SolverCompositeChild (what SolverComposite keeps per group of variables), whole histories -/
 
 /-- **SolverCompositeChild refines the specification**: ConstraintDeduplicator, SatCache, SimplifySkipper, ModelCache over
 FullFrontend (generated MRO) — the caching layers of `Solver` in another order, no constraint filter, no concrete handler (so
 the queried expressions are symbolic: `InScopeC`), no expansion.  Same hypotheses and world invariant as `C11_solver_refines`. -/
-theorem C11_child_refines {E : Env} {R : Con → Prop} {RE : Exp → Prop} (H : SolverHyps R RE E) (hist : List (Nat × Op))
-    (hok : HistOkC R RE 1 hist) :
-    ∀ x ∈ runHist E .SolverCompositeChild (World.init false false) [[]] hist,
+theorem C11_child_refines {E : Env} {R : Con → Prop} {RE : Exp → Prop} (H : SolverHyps R RE E) (track : Bool)
+    (hist : List (Nat × Op)) (hok : HistOkC R RE 1 hist) :
+    ∀ x ∈ runHist E .SolverCompositeChild (World.init track false) [[]] hist,
       x.2.2 ≠ .err .giveUp → Judge x.1 x.2.1 x.2.2 :=
-  ch_hist H hist _ _ (tinvS_init R RE E) hok
+  ch_hist H hist _ _ (tinvS_init R RE E track) hok
 
 theorem C11_child_refines_or_gives_up {E : Env} {R : Con → Prop} {RE : Exp → Prop} (H : SolverHyps R RE E)
-    (hist : List (Nat × Op)) (hok : HistOkC R RE 1 hist) :
-    ∀ x ∈ runHist E .SolverCompositeChild (World.init false false) [[]] hist, JudgeOrGiveUp E x.1 x.2.1 x.2.2 :=
-  ch_hist_giveup H hist _ _ (tinvS_init R RE E) hok
+    (track : Bool) (hist : List (Nat × Op)) (hok : HistOkC R RE 1 hist) :
+    ∀ x ∈ runHist E .SolverCompositeChild (World.init track false) [[]] hist, JudgeOrGiveUp E x.1 x.2.1 x.2.2 :=
+  ch_hist_giveup H hist _ _ (tinvS_init R RE E track) hok
 
 theorem C11_child_step {E : Env} {R : Con → Prop} {RE : Exp → Prop} (H : SolverHyps R RE E) (w : World)
     (Us : List (List Con)) (hw : TInvS R RE E Us w) (i : Nat) (hi : i < w.fes.length) (op : Op) (hop : InScopeC R RE op) :
@@ -331,7 +331,7 @@ theorem C11_child_step {E : Env} {R : Con → Prop} {RE : Exp → Prop} (H : Sol
 example : ∀ x ∈ runHist cEnv .SolverCompositeChild (World.init false false) [[]]
       [(0, .add [cEq]), (0, .max cExp [] true), (0, .branch), (1, .batchEval [cExp] 3 []), (1, .add [cCon]),
        (0, .pickle), (0, .eval cExp 2 [cCon])], JudgeOrGiveUp cEnv x.1 x.2.1 x.2.2 := by
-  refine C11_child_refines_or_gives_up cHyps _ ?_
+  refine C11_child_refines_or_gives_up cHyps false _ ?_
   have hc : cR cCon := Or.inr (Or.inl rfl)
   have hq : cR cEq := Or.inr (Or.inr (Or.inl rfl))
   have he : cRE cExp := rfl
